@@ -9,7 +9,7 @@
 (* and ret an expression over the parameter th and the sampled values.     *)
 (* A sample statement with guard g # 0 is executed only when the value of  *)
 (* sample site g is 1 (a site inside a lax.cond branch), otherwise it      *)
-(* yields 0.  Strategies: ENUM (flip_enum), ENUMPAR (flip_enum_parallel),  *)
+(* yields 0 (g = 3: inside a branch of lax.cond(True, ..), always run).  Strategies: ENUM (flip_enum), ENUMPAR (flip_enum_parallel),  *)
 (* CATPAR (categorical_enum_parallel, 3 outcomes), REINFORCE               *)
 (* (flip_reinforce), BASELINE (baseline(flip_reinforce)(b, p)), MVD        *)
 (* (flip_mvd).                                                             *)
@@ -83,7 +83,7 @@ Est(prog, thD, j, env, om) ==
   IF j > Len(prog.body) THEN EvalD(prog.ret, thD, env)
   ELSE LET st == prog.body[j] IN
     IF st.k = "cost" THEN DAdd(EvalD(st.e, thD, env), Est(prog, thD, j + 1, env, om))
-    ELSE IF st.g # 0 /\ env[st.g] # 1 THEN Est(prog, thD, j + 1, Append(env, 0), om)
+    ELSE IF st.g \in {1, 2} /\ env[st.g] # 1 THEN Est(prog, thD, j + 1, Append(env, 0), om)
     ELSE
       CASE st.strat \in {"ENUM", "ENUMPAR"} ->
              EnumRule(EvalD(st.p[1], thD, env), Est(prog, thD, j + 1, Append(env, 1), om),
@@ -144,7 +144,7 @@ ExpectP(prog, j, env) ==
   IF j > Len(prog.body) THEN EvalP(prog.ret, env)
   ELSE LET st == prog.body[j] IN
     IF st.k = "cost" THEN PAdd(EvalP(st.e, env), ExpectP(prog, j + 1, env))
-    ELSE IF st.g # 0 /\ env[st.g] # 1 THEN ExpectP(prog, j + 1, Append(env, 0))
+    ELSE IF st.g \in {1, 2} /\ env[st.g] # 1 THEN ExpectP(prog, j + 1, Append(env, 0))
     ELSE LET t0 == PMul(ProbP(st, 0, env), ExpectP(prog, j + 1, Append(env, 0)))
              t1 == PMul(ProbP(st, 1, env), ExpectP(prog, j + 1, Append(env, 1)))
          IN  IF st.strat = "CATPAR"
@@ -204,6 +204,9 @@ Thetas == {<<1, 4>>, <<1, 2>>, <<3, 4>>}
 ThSq == Mul(Th, Th)
 OneMinusTh == Sub(C(1, 1), Th)
 HalfThQ == Add(Mul(C(1, 2), Th), C(1, 4))
+\* 2 th - 1/2 is exactly 0, 1/2, 1 on the grid: boundary probabilities, for enumerating sites only
+\* (the score function of a sampled site is undefined there)
+Bnd == Sub(Mul(C(2, 1), Th), C(1, 2))
 PE1Seq == IF Big THEN <<Th, OneMinusTh, ThSq, HalfThQ, C(1, 2)>> ELSE <<Th, ThSq>>
 \* probabilities of the second site may depend on the first value
 PE2Seq == IF Big THEN PE1Seq \o <<Cond(1, Th, C(1, 4)), Cond(1, ThSq, OneMinusTh), Add(Mul(C(1, 4), V(1)), Mul(C(1, 2), Th))>>
@@ -216,15 +219,16 @@ GuardPESeq == IF Big THEN PE1Seq ELSE <<Th>>
 FlipStratSeq == <<"ENUM", "ENUMPAR", "REINFORCE", "MVD", "BASELINE">>
 Strat1Seq == FlipStratSeq \o <<"CATPAR">>
 
-\* (flip_mvd is not generated inside a cond branch: its pure continuation only sees the branch)
+\* (flip_mvd is not generated inside a cond branch)
 FlipSites(pes, g) ==
      {Sample(s, <<p>>, C(0, 1), g) : s \in (IF g = 0 THEN {"ENUM", "ENUMPAR", "REINFORCE", "MVD"} ELSE {"ENUM", "ENUMPAR", "REINFORCE"}),
                                      p \in SeqSet(pes)}
      \cup {Sample("BASELINE", <<p>>, b, g) : p \in SeqSet(pes), b \in SeqSet(BaseSeq)}
-Sites1 == FlipSites(PE1Seq, 0) \cup {Sample("CATPAR", p, C(0, 1), 0) : p \in SeqSet(Cat1Seq)}
+BndSites == {Sample(s, <<Bnd>>, C(0, 1), 0) : s \in {"ENUM", "ENUMPAR"}}
+Sites1 == FlipSites(PE1Seq, 0) \cup BndSites \cup {Sample("CATPAR", p, C(0, 1), 0) : p \in SeqSet(Cat1Seq)}
 \* second site: unguarded, or guarded by a first flip site (a site inside a cond branch)
 Sites2(first) == IF first.strat = "CATPAR" THEN FlipSites(PE2CatSeq, 0)
-                 ELSE FlipSites(PE2Seq, 0) \cup FlipSites(GuardPESeq, 1)
+                 ELSE FlipSites(PE2Seq, 0) \cup FlipSites(GuardPESeq, 1) \cup (IF Big THEN BndSites ELSE {})
 
 \* returns: the constants are injective in the sampled values
 Ret1Seq == << Cond(1, Mul(C(3, 1), Th), Add(C(1, 1), ThSq)),
@@ -243,9 +247,7 @@ RetSeq(bd) ==
   IF Len(ss) = 1 THEN (IF ss[1].strat = "CATPAR" THEN Ret1CatSeq ELSE Ret1Seq)
   ELSE (IF ss[1].strat = "CATPAR" THEN Ret2CatSeq ELSE Ret2Seq)
 
-\* MVD evaluates the rest of the program with the pure continuation, which does
-\* not support further sample sites or costs (eval_jaxpr_iterate_pure skips
-\* them): MVD is only generated as the last statement.
+\* (flip_mvd: the other outcome's value is the primal of the rest of the program, MvdRule)
 VARIABLES body, stage, prog, th, r
 vars == <<body, stage, prog, th, r>>
 NoProg == Prog(<<>>, C(0, 1))
@@ -259,7 +261,7 @@ Pick1 == /\ stage = 0
 HasCost(bd) == \E i \in 1..Len(bd) : bd[i].k = "cost"
 \* The small universe (Big = FALSE, quick tier) drops some combinations of cost statements.
 Pick2 == /\ stage = 1
-         /\ body[Len(body)].strat # "MVD"
+         /\ Big \/ body[Len(body)].strat # "MVD"        \* (small universe: only a cost after flip_mvd)
          /\ Big \/ ~HasCost(body)
          /\ \E s \in Sites2(body[Len(body)]) :
             \E mid \in {<<>>} \cup {<<Cost(c)>> : c \in (IF Big THEN SeqSet(Costs1Seq) ELSE {Costs1Seq[2]})} :
@@ -267,7 +269,7 @@ Pick2 == /\ stage = 1
          /\ stage' = 2 /\ UNCHANGED <<prog, th, r>>
 Finish == /\ stage \in {1, 2}
           /\ \E ret \in (IF Big \/ ~HasCost(body) THEN SeqSet(RetSeq(body)) ELSE {RetSeq(body)[1]}) :
-             \E post \in {<<>>} \cup (IF body[Len(body)].strat = "MVD" \/ (~Big /\ stage = 2) THEN {} ELSE {<<PostCost>>}) :
+             \E post \in {<<>>} \cup (IF ~Big /\ stage = 2 THEN {} ELSE {<<PostCost>>}) :
                 prog' = Prog(body \o post, ret)
           /\ \E t \in Thetas : th' = t
           /\ stage' = 3 /\ UNCHANGED <<body, r>>
@@ -297,19 +299,23 @@ PickSeq(s, rr) == s[RPick(rr, Len(s)) + 1]
 GenSite(strats, pes, cats, g, rr) ==
   LET s == PickSeq(strats, rr) IN
   IF s = "CATPAR" THEN Sample(s, PickSeq(cats, RN(rr, 1)), C(0, 1), 0)
-  ELSE Sample(s, <<PickSeq(pes, RN(rr, 1))>>, IF s = "BASELINE" THEN PickSeq(BaseSeq, RN(rr, 2)) ELSE C(0, 1), g)
+  ELSE Sample(s, <<PickSeq(IF s \in {"ENUM", "ENUMPAR"} /\ g = 0 THEN pes \o <<Bnd>> ELSE pes, RN(rr, 1))>>,
+              IF s = "BASELINE" THEN PickSeq(BaseSeq, RN(rr, 2)) ELSE C(0, 1), g)
 
 GenProg(rr) ==
   LET pre   == IF RPick(RN(rr, 1), 3) = 0 THEN <<Cost(PickSeq(Costs0Seq, RN(rr, 1)))>> ELSE <<>>
-      s1    == GenSite(Strat1Seq, PE1Seq, Cat1Seq, 0, RN(rr, 2))
-      two   == RPick(rr, 4) # 0 /\ s1.strat # "MVD"
+      s1strat == PickSeq(Strat1Seq, RN(rr, 2))
+      \* the first site inside a branch of lax.cond(True, ..) (g = 3), the second one after the cond
+      g1    == IF s1strat \in {"ENUM", "REINFORCE", "BASELINE"} /\ RPick(RN(rr, 9), 6) = 0 THEN 3 ELSE 0
+      s1    == GenSite(Strat1Seq, PE1Seq, Cat1Seq, g1, RN(rr, 2))
+      two   == RPick(rr, 4) # 0
       mid   == IF RPick(RN(rr, 5), 3) = 0 THEN <<Cost(PickSeq(Costs1Seq, RN(rr, 6)))>> ELSE <<>>
       guard == IF s1.strat # "CATPAR" /\ PickSeq(FlipStratSeq, RN(rr, 8)) # "MVD" /\ RPick(RN(rr, 7), 3) = 0 THEN 1 ELSE 0
       s2    == GenSite(FlipStratSeq,
                        IF s1.strat = "CATPAR" THEN PE2CatSeq ELSE IF guard = 1 THEN GuardPESeq ELSE PE2Seq,
                        <<>>, guard, RN(rr, 8))
       bd    == IF two THEN pre \o <<s1>> \o mid \o <<s2>> ELSE pre \o <<s1>>
-      post  == IF bd[Len(bd)].strat # "MVD" /\ RPick(RN(rr, 11), 3) = 0 THEN <<PostCost>> ELSE <<>>
+      post  == IF RPick(RN(rr, 11), 3) = 0 THEN <<PostCost>> ELSE <<>>
   IN  [v |-> Prog(bd \o post, PickSeq(RetSeq(bd), RN(rr, 12))), r |-> RN(rr, 13)]
 
 R1 == Ret1Seq[1]
@@ -331,7 +337,13 @@ Core == <<
   Prog(<<Smp("REINFORCE", C(1, 2)), Sample("ENUM", <<Th>>, C(0, 1), 1), PostCost>>, R2),
   Prog(<<Sample("BASELINE", <<Th>>, C(3, 1), 0), Smp("MVD", OneMinusTh)>>, R2),
   Prog(<<Sample("CATPAR", Cat1Seq[1], C(0, 1), 0), Smp("REINFORCE", PE2CatSeq[2])>>, Ret2CatSeq[1]),
-  Prog(<<Smp("ENUMPAR", Th), Sample("BASELINE", <<OneMinusTh>>, Mul(C(2, 1), Th), 0)>>, Ret2Seq[2])
+  Prog(<<Smp("ENUMPAR", Th), Sample("BASELINE", <<OneMinusTh>>, Mul(C(2, 1), Th), 0)>>, Ret2Seq[2]),
+  Prog(<<Smp("ENUM", Bnd)>>, R1),                                       \* p = 0, 1/2, 1
+  Prog(<<Smp("ENUMPAR", Bnd), PostCost>>, Ret1Seq[2]),
+  Prog(<<Smp("ENUM", Bnd), Smp("REINFORCE", Cond(1, ThSq, C(1, 4)))>>, R2),
+  Prog(<<Smp("MVD", Th), PostCost>>, R1),                               \* statements after flip_mvd
+  Prog(<<Smp("MVD", ThSq), Smp("REINFORCE", Cond(1, Th, C(1, 4)))>>, R2),
+  Prog(<<Sample("REINFORCE", <<Th>>, C(0, 1), 3), Smp("REINFORCE", ThSq)>>, Ret2Seq[2])   \* site in a branch, site after the cond
 >>
 
 InitGen == \E i \in 0..NChains :
@@ -362,7 +374,10 @@ ContCases == <<
   CC("beta_implicit", 1, <<2>>, <<1>>, <<1, 2>>, <<1, 0>>, M1(1), M1(0), 0, 0, 1),
   CC("beta_implicit", 1, <<1>>, <<0>>, <<2, 1>>, <<-1, 2>>, M1(1), M1(0), 0, 0, 1),
   CC("geometric_reinforce", 1, <<2>>, <<1>>, <<0>>, <<0>>, M1(1), M1(0), 0, 1, 4),
-  CC("geometric_reinforce", 1, <<1>>, <<-1>>, <<0>>, <<0>>, M1(1), M1(0), 2, 1, 8)
+  CC("geometric_reinforce", 1, <<1>>, <<-1>>, <<0>>, <<0>>, M1(1), M1(0), 2, 1, 8),
+  \* two consecutive tail-call sites, one component each: the inferred noises must be independent
+  CC("two_normal_reparam", 2, <<2, 1>>, <<1, -2>>, <<1, 0>>, <<2, -1>>, << <<1, 0>>, <<0, 2>> >>, << <<1, 0>>, <<0, -1>> >>, 0, 0, 1),
+  CC("uniform_normal_reparam", 2, <<2, 1>>, <<1, -2>>, <<0, 0>>, <<0, -1>>, << <<1, 0>>, <<0, 2>> >>, << <<0, 0>>, <<0, -1>> >>, 0, 0, 1)
 >>
 
 EmitCase == /\ PrintT(<<"CASE", ToJson([prog |-> prog, core |-> IF th[1] = 0 THEN stage ELSE 0])>>)
